@@ -211,13 +211,21 @@ def main():
         print(json.dumps({"result": execute(sb, json.loads(sys.argv[3]))}))
         return
     real_out = sys.stdout
+    import state_snapshot
+    import torrentfile.cli, torrentfile.commands, torrentfile.interactive, torrentfile.rebuild, torrentfile.recheck  # noqa: F401,E401
+    import torrentfile.edit, torrentfile.torrent, torrentfile.hasher, torrentfile.utils  # noqa: F401,E401
+    prev = state_snapshot.snapshot()
     for line in sys.stdin:
         line = line.strip()
         if not line:
             continue
         res = execute(sb, json.loads(line))
         sys.stdout = real_out
-        real_out.write(json.dumps({"result": res}) + "\n")
+        # what of the package's process-lifetime state this step changed (validated against GenState.v by c09.py)
+        now = state_snapshot.snapshot()
+        changed = state_snapshot.diff(prev, now)
+        prev = now
+        real_out.write(json.dumps({"result": res, "state_changed": changed}) + "\n")
         real_out.flush()
 
 
